@@ -12,9 +12,9 @@ ID = 'C19'
 LEVEL = 'exploration'
 EXHAUSTIVE = True
 RULE = (
-    'ALL event lists of length <= 3 (thorough 4) with times from {0, 1, 2, '
+    'ALL event lists of length <= 3 (thorough 5) with times from {0, 1, 2, '
     '3, 5} and target variable from {x, y}, in EVERY order, duplicates '
-    'included, plus all time sequences of length 4 (5) with an alternating '
+    'included, plus all time sequences of length 4 (6) with an alternating '
     'variable pattern; each event sets its variable to a value that '
     'encodes the event (0 and False among them); timeline timestep in {0.5, 1, 2, 3}; run length 6 '
     'in a real Engine with the real TimelineProcess (directly and through '
@@ -27,7 +27,7 @@ ASSUMPTIONS = [
     'timeline timesteps divide the run length',
 ]
 BOUNDS = {'quick': {'events': 3, 'patterned': 4},
-          'thorough': {'events': 4, 'patterned': 5}}
+          'thorough': {'events': 5, 'patterned': 6}}
 TIMES = [0, 1, 2, 3, 5]
 RUN = 6
 
